@@ -117,8 +117,9 @@ func (sm *ShardManager) cleanupRoutine(ls *loadedShard, backupFrequency, backupC
 		case <-timer.C:
 			sm.logger.Debug().Str("shardDir", shardDir).Msg("Unloading shard")
 			ls.mu.Lock()
-			defer ls.mu.Unlock() // we commit to exiting the cleanup goroutine here
+			// we commit to exiting the cleanup goroutine here
 			if ls.shard == nil {
+				ls.mu.Unlock()
 				sm.logger.Debug().Str("shardDir", shardDir).Msg("Shard already unloaded")
 				return
 			}
@@ -145,8 +146,16 @@ func (sm *ShardManager) cleanupRoutine(ls *loadedShard, backupFrequency, backupC
 			// is closed in case they are waiting on the lock
 			sm.logger.Debug().Str("shardDir", shardDir).Msg("Removing loaded shard")
 			ls.shard = nil
+			// Release the shard lock before taking the store lock: collection
+			// deletion takes them in the opposite order (store lock, then
+			// shard lock) and the two would deadlock. Anyone who gets hold of
+			// this entry in between sees the nil shard reference.
+			ls.mu.Unlock()
 			sm.shardLock.Lock()
-			delete(sm.shardStore, shardDir)
+			// The entry may have been deleted or replaced in the meantime
+			if current, ok := sm.shardStore[shardDir]; ok && current == ls {
+				delete(sm.shardStore, shardDir)
+			}
 			sm.shardLock.Unlock()
 			// ---------------------------
 			return
